@@ -707,19 +707,22 @@ def rule_block_axis(repo: Repo, rep: Report, classes: List[ClassInfo]) -> int:
     return n
 
 
-def rule_chunk_cover(repo: Repo, rep: Report, classes: List[ClassInfo]) -> int:
+def rule_chunk_cover(repo: Repo, rep: Report, classes: List[ClassInfo], funcs=None, consequence: Optional[str] = None) -> int:
     """A loop that works through the rows in slices `[s * L : (s + 1) * L]` for `s in range(N // L)` covers floor(N / L) * L
     rows: unless N is known to be a multiple of L (a `% L` test in the function) or the count is a ceiling, the last
     N mod L rows are never processed and keep their initial values - the result for a row then depends on how many rows
     the batch has and where the row stands in it."""
     n = 0
     seen = set()
-    funcs = [(ci.name, fi) for ci in classes for fi in ci.methods.values()]
-    for ci in classes:
-        for f_ in ci.module.functions.values():
-            if id(f_) not in seen:
-                seen.add(id(f_))
-                funcs.append((ci.module.relpath, f_))
+    if funcs is None:
+        funcs = [(ci.name, fi) for ci in classes for fi in ci.methods.values()]
+        for ci in classes:
+            for f_ in ci.module.functions.values():
+                if id(f_) not in seen:
+                    seen.add(id(f_))
+                    funcs.append((ci.module.relpath, f_))
+    cons1 = consequence or "they keep their initial values, so the result for a row depends on the number of rows in the batch and on the row's position"
+    cons2 = consequence or "the result ignores the tail of the data (a sum / mean over it is too small), depending on the length"
     for owner, fi in funcs:
         for lp in [x for x in ast.walk(fi.node) if isinstance(x, ast.For) and isinstance(x.target, ast.Name) and isinstance(x.iter, ast.Call) and isinstance(x.iter.func, ast.Name) and x.iter.func.id == "range" and len(x.iter.args) == 1]:
             cnt = lp.iter.args[0]
@@ -740,7 +743,7 @@ def rule_chunk_cover(repo: Repo, rep: Report, classes: List[ClassInfo]) -> int:
             if ceil_ or guarded:
                 rep.ok("CHUNK-COVER", fi, f"{owner}.{fi.name}: for {v} in {unparse(lp.iter)} over slices of {size}", "the slices cover every row (ceiling count, or the length is tested to be a multiple of the slice)", node=lp, nontrivial=False)
             else:
-                rep.violation("CHUNK-COVER", fi, f"{owner}.{fi.name}: for {v} in {unparse(lp.iter)} over slices of {size}", f"the loop runs over floor({total} / {size}) slices of {size} rows and nothing handles the remaining {total} mod {size} rows: they keep their initial values, so the result for a row depends on the number of rows in the batch and on the row's position", node=lp)
+                rep.violation("CHUNK-COVER", fi, f"{owner}.{fi.name}: for {v} in {unparse(lp.iter)} over slices of {size}", f"the loop runs over floor({total} / {size}) slices of {size} rows and nothing handles the remaining {total} mod {size} rows: {cons1}", node=lp)
         # second form: the data cut down to whole blocks, `x[: (N // L) * L]` (also through a local `k = N // L`), and only
         # that part processed
         fdefs = {s_.targets[0].id: s_.value for s_ in ast.walk(fi.node) if isinstance(s_, ast.Assign) and len(s_.targets) == 1 and isinstance(s_.targets[0], ast.Name) and isinstance(s_.value, ast.BinOp) and isinstance(s_.value.op, ast.FloorDiv)}
@@ -756,7 +759,7 @@ def rule_chunk_cover(repo: Repo, rep: Report, classes: List[ClassInfo]) -> int:
                     if f"% {size}" in ftxt or f"{unparse(sl.upper)}:" in unparse(fi.node):
                         rep.ok("CHUNK-COVER", fi, f"{owner}.{fi.name}: [: {unparse(sl.upper)}]", "the remainder is handled (a `%` test or a slice that starts where this one ends)", node=sl, nontrivial=False)
                     else:
-                        rep.violation("CHUNK-COVER", fi, f"{owner}.{fi.name}: [: {unparse(sl.upper)}]", f"only the first floor({total} / {size}) * {size} elements are processed and nothing handles the remaining {total} mod {size}: the result ignores the tail of the data (a sum / mean over it is too small), depending on the length", node=sl)
+                        rep.violation("CHUNK-COVER", fi, f"{owner}.{fi.name}: [: {unparse(sl.upper)}]", f"only the first floor({total} / {size}) * {size} elements are processed and nothing handles the remaining {total} mod {size}: {cons2}", node=sl)
                     break
     return n
 
